@@ -558,10 +558,9 @@ def gen_serial(repo):
                 "ifletSome(duration)=delay{thread::sleep(duration);}"
                 "ifresponse_expected{letframe=Frame::read(&mutself.port)?;letmessage=Message::from(frame);"
                 "ifletSome(duration)=delay_after_receive(&message){thread::sleep(duration);}Ok(Some(message))}else{Ok(None)}")
-    out.append("/-- whether `process_message` has, token for token, the shape the model `serialStep` transcribes")
-    out.append("    (classify, write, pause, then read + pause exactly when a response is expected). -/")
-    out.append("def processMessageShapeRecognised : Bool := %s" % ("true" if sq == expected else "false"))
-    out.append("")
+    notes = []
+    if sq != expected:
+        notes.append("SerialSignBus::process_message no longer has, token for token, the statement order the model serialStep transcribes (classify, write, pause, read + pause when a response is expected); only the differential correspondence ties it")
     # timeouts
     body = fn_body(src, r"pub\s+fn\s+try_new\s*\(\s*mut\s+port\s*:\s*P\s*\)[^{]*\{", "SerialSignBus::try_new")
     m = re.fullmatch(r"serial_port::configure_port\(&mutport,Duration::from_(secs|millis)\((\w+)\)\)\?;Ok\(SerialSignBus\{port\}\)", squash(body))
@@ -609,6 +608,7 @@ def gen_serial(repo):
     out.append("/-- `configure_port`: the five settings written by the reconfigure closure (all five setters are")
     out.append("    present, unconditionally, followed by `set_timeout(timeout)?`). -/")
     out.append("def portSettings : PortSettings := ⟨%s⟩" % ", ".join(vals))
+    gen_serial.notes = notes
     return [p1, p2, p3], "\n".join(out) + "\n"
 
 
@@ -866,6 +866,8 @@ def translate(repo, outdir, topics=None):
                     f.write(text)
                 os.replace(target + ".tmp", target)
             status[topic] = {"status": "generated", "files": files, "sha256": sha, "changed": old != text}
+            if getattr(gen, "notes", None):
+                status[topic]["notes"] = gen.notes
         except (TranslateError, OSError, AssertionError, IndexError) as e:
             status[topic] = {"status": "unavailable", "reason": str(e)}
     return status
